@@ -1,4 +1,5 @@
 import PgVerif.Model.LR
+import PgVerif.Model.GLR
 import PgVerif.Model.Forest
 import PgVerif.Spec.SPPF
 import PgVerif.Model.Pos
@@ -451,6 +452,22 @@ def handle (st : St) (cmd : String) (args : List Nat) : St × String :=
         let bad := (List.range T.n).filter (fun s => !(I s).all (LRV.itemOK st.g T I F s))
         s!"lrvalid 0 closed={F.closed st.g} start={LRV.hasItem (I 0) 0 0 []} badstates={bad.take 5}")
     | _, _ => (st, "bad-lrvalid")
+  | "glr" =>
+    -- glr <fuel>: the GLR driver model on the current grammar, table and input; packed alternatives reachable
+    -- from the accepted heads: sym s e prod n (sym s e)*
+    match st.T, st.inp, args with
+    | some T, some inp, [fuel] =>
+      (st, match GLR.parseGLR st.g T inp fuel with
+        | .forest s =>
+          let alts := GLR.reachableAlts T s ((s.links.size + 2) * (s.links.size + 2) * 8 + 1000)
+          "glr forest " ++ natList (alts.flatMap (fun a =>
+            [encSym a.1.1, a.1.2.1, a.1.2.2, a.2.1, a.2.2.length] ++
+              a.2.2.flatMap (fun k => [encSym k.1, k.2.1, k.2.2])))
+        | .syntaxError => "glr syntax"
+        | .lexAmbiguous => "glr lexamb"
+        | .crash => "glr crash"
+        | .outOfFuel => "glr fuel")
+    | _, _, _ => (st, "bad-glr")
   | "detok" =>
     -- detok: the executable hypotheses of C04_exact_when_deterministic on the current table and input:
     -- <detTableB: every cell at most one action, finish flags per cell, cell terminals distinct>
